@@ -308,4 +308,40 @@ def step (s : State) (a : Act) : State :=
 
 def run (s : State) (acts : List Act) : State := acts.foldl step s
 
+/-! ## The unrepaired `parallel::perform_resume` (pinned commit)
+
+The thread created for the awaiting coroutine called `h.resume()` directly: the coroutine ran on a thread with
+`coro_queue::instance == nullptr`. Only what is needed to exhibit the consequence is modelled: the job of such a
+thread starts the coroutine with no queue installed, and a suspend point dropped by a coroutine that runs without
+a queue goes through the `install_queue_and_call` branch of `suspend_now`, i.e. its first handle is resumed at
+once, nested in the running coroutine (the other handles are left in `ready`; what happens after the nested
+coroutine returns is not modelled). -/
+
+def mainJobAsIs (s : State) : State :=
+  if s.active = false ∧ s.blocks = [] then
+    match s.jobs with
+    | ([h], false) :: js =>
+        { s with jobs := js, st := upd s.st h St.running, cur := some h, base := some Base.callMain,
+                 runs := s.runs ++ [h] }
+    | _ => mainJob s
+  else s
+
+def enqueueAsIs (s : State) (c : Nat) (cs : List Nat) (rev : Bool) : State :=
+  if s.active then enqueue s cs rev
+  else
+    match handles s.st cs rev with
+    | [] => s
+    | h :: rest =>
+        { s with st := upd (upd (collect s.st cs).1 c St.stacked) h St.running, calls := c :: s.calls,
+                 active := true, ready := s.ready ++ rest, cur := some h,
+                 made := s.made ++ handles s.st cs rev, runs := s.runs ++ [h] }
+
+def stepAsIs (s : State) (a : Act) : State :=
+  match s.cur, a with
+  | some c, Act.wake cs Mode.discard rev => enqueueAsIs s c cs rev
+  | none, Act.job => mainJobAsIs s
+  | _, _ => step s a
+
+def runAsIs (s : State) (acts : List Act) : State := acts.foldl stepAsIs s
+
 end Cocls.Exec
